@@ -73,7 +73,33 @@ func c15Tables(c *Ctx, p *Prog, m *Model) {
 		prm := fn.Params[0]
 		for k, name := range want {
 			a := map[string]bool{}
+			// a lookup of the level in a package-level constant table: decided from the table's literal
+			tableHit := func(lk *ssa.Lookup) (constant.Value, bool, bool) {
+				g, isG := globalLoad(lk.X)
+				if !isG || strip(lk.Index) != ssa.Value(prm) {
+					return nil, false, false
+				}
+				lit, err := mapLiteral(p, p.Slog, g.Name())
+				if err != nil {
+					return nil, false, false
+				}
+				for _, kv := range lit {
+					if kk, exact := constant.Int64Val(constant.ToInt(kv.K)); exact && kk == k {
+						return kv.V, true, true
+					}
+				}
+				return nil, false, true
+			}
 			t := walkDecision(fn.Blocks[0], a, func(cond ssa.Value) (string, bool) {
+				if ex, isEx := cond.(*ssa.Extract); isEx && ex.Index == 1 {
+					if lk, isLk := ex.Tuple.(*ssa.Lookup); isLk {
+						if _, hit, ok := tableHit(lk); ok {
+							key := "hit:" + lk.Name()
+							a[key] = hit
+							return key, true
+						}
+					}
+				}
 				bo, ok := cond.(*ssa.BinOp)
 				if !ok || strip(bo.X) != ssa.Value(prm) {
 					return "", false
@@ -105,7 +131,15 @@ func c15Tables(c *Ctx, p *Prog, m *Model) {
 			}, nil)
 			got := t.Kind
 			if t.Kind == "return" {
-				got = m.levelStr(resolveAlong(t.Instr.(*ssa.Return).Results[0], t.Path))
+				rv := resolveAlong(t.Instr.(*ssa.Return).Results[0], t.Path)
+				got = m.levelStr(rv)
+				if ex, isEx := rv.(*ssa.Extract); isEx && ex.Index == 0 {
+					if lk, isLk := ex.Tuple.(*ssa.Lookup); isLk {
+						if v, hit, ok := tableHit(lk); ok && hit {
+							got = m.constName(v)
+						}
+					}
+				}
 			}
 			r.Check(got == name, "R15.1", fmt.Sprintf("logsloglevel2Level(%d)", k), p.FuncPos(fn), "maps to "+name, fmt.Sprintf("Entry.Log's level mapping sends log/slog level %d to %s, its namesake is %s", k, got, name))
 		}
